@@ -445,7 +445,7 @@ def c04(ctx):
     drv = ctx.build()
     models.run_family(ctx, "crash")
     n, ops = (16, 12) if ctx.quick else (160, 16)
-    outs = run_crash(ctx, drv, n, ops, ctx.seed + 50)
+    outs = run_crash(ctx, drv, n, ops, ctx.seed + 50, depth=2, deep_every=20 if ctx.quick else 4)
     stats = judge_crash(ctx, outs, "c04", "c04")
     crash_cov(ctx, stats, "the C03 image enumeration on multi-key transactions (1-3 keys, rotation on every commit in "
                           "part of the configurations); judged with AtomicInflight=TRUE; a history is attributed to C04 "
